@@ -1,6 +1,7 @@
 package main
 
 import (
+	"reflect"
 	"fmt"
 	"go/constant"
 	"go/token"
@@ -168,8 +169,15 @@ func (e *Engine) initExt2() {
 		zeroSeek := And(Eq(args[1].one(), Zero), Eq(args[2].one(), Zero))
 		vc.fact(Imp(And(Eq(er.L[0], Zero), zeroSeek), Eq(newPos, Zero)))
 		vc.set(st, pc, Store(cur, s, newPos))
+		// ghost SeekFail[stream]: some Seek on the stream has reported an error
+		vc.registerComp("SeekFail", SArr(SInt, SInt))
+		sf := vc.get(st, "SeekFail")
+		vc.set(st, "SeekFail", Store(sf, s, Ite(Eq(er.L[0], Zero), Select(sf, s), One)))
 		return tupleOf(rt, n, er)
-	}).mods = func(e *Engine, c *ssa.CallCommon, m *ModSet) { m.comps["Pos"] = SArr(SInt, SInt) }
+	}).mods = func(e *Engine, c *ssa.CallCommon, m *ModSet) {
+		m.comps["Pos"] = SArr(SInt, SInt)
+		m.comps["SeekFail"] = SArr(SInt, SInt)
+	}
 	consume := func(f *Frame, st *State, s Term) {
 		vc := f.vc
 		pc := posComp(f)
@@ -203,15 +211,40 @@ func (e *Engine) initExt2() {
 		vc.registerComp("Src", SArr(SInt, SInt))
 		consume(f, st, Select(vc.get(st, "Src"), obj))
 	}
-	e.reg("(*encoding/json.Decoder).Decode", "Decoder.Decode(v): assigns *v (an arbitrary value of its Go type), advances the stream, returns an error or nil", func(f *Frame, st *State, c *ssa.CallCommon, args []Val, rt types.Type, pos token.Pos) Val {
+	e.reg("(*encoding/json.Decoder).Decode", "Decoder.Decode(v): assigns *v (an arbitrary value of its Go type), advances the stream, returns an error or nil. The first Decode of a stream succeeds iff json.ok(stream), and then every top-level string field of *v tagged `json:\"t\"` holds json.member(stream, t) (\"\" when the member is absent)", func(f *Frame, st *State, c *ssa.CallCommon, args []Val, rt types.Type, pos token.Pos) Val {
+		vc := f.vc
+		vc.registerComp("Src", SArr(SInt, SInt))
+		stream := Select(vc.get(st, "Src"), args[0].one())
 		readFrom(f, st, args[0].one())
+		er := freshResult(f, st, rt, "err")
 		// v is passed as interface{}: the payload is the pointer
 		if c != nil {
 			if mi, ok := c.Args[1].(*ssa.MakeInterface); ok {
-				f.havocObject(st, f.val(mi.X))
+				p := f.val(mi.X)
+				f.havocObject(st, p)
+				jok := vc.declareFun("json.ok", []*Sort{SInt}, SBool)
+				jm := vc.declareFun("json.member", []*Sort{SInt, SStr}, SStr)
+				vc.fact(Imp(st.reach, Eq(Eq(er.L[0], Zero), mk(SBool, jok, stream))))
+				if pt, ok := p.T.Underlying().(*types.Pointer); ok {
+					if stt, ok := pt.Elem().Underlying().(*types.Struct); ok {
+						loc := f.ptrLoc(p)
+						for i := 0; i < stt.NumFields(); i++ {
+							fld := stt.Field(i)
+							tag := reflect.StructTag(stt.Tag(i)).Get("json")
+							if j := strings.Index(tag, ","); j >= 0 {
+								tag = tag[:j]
+							}
+							if bt, ok := fld.Type().Underlying().(*types.Basic); !ok || bt.Kind() != types.String || tag == "" || tag == "-" || loc.Kind == LArr {
+								continue
+							}
+							fv := vc.load(st, &Loc{Kind: loc.Kind, Base: loc.Base, Idx: loc.Idx, Root: loc.Root, Path: loc.Path + "." + fld.Name(), T: fld.Type()})
+							vc.fact(Imp(And(st.reach, Eq(er.L[0], Zero)), Eq(fv.one(), mk(SStr, jm, stream, StrT(tag)))))
+						}
+					}
+				}
 			}
 		}
-		return freshResult(f, st, rt, "err")
+		return er
 	}).mods = func(e *Engine, c *ssa.CallCommon, m *ModSet) {
 		posMods(e, c, m)
 		if mi, ok := c.Args[1].(*ssa.MakeInterface); ok {
@@ -289,6 +322,10 @@ func (e *Engine) initExt2() {
 	}
 	e.reg("github.com/CycloneDX/cyclonedx-go.NewBOM", "cdx.NewBOM: a fresh BOM (BOMFormat \"CycloneDX\", Version 1; every pointer field nil)", func(f *Frame, st *State, c *ssa.CallCommon, args []Val, rt types.Type, pos token.Pos) Val {
 		v := f.allocVal(st, rt, "bom")
+		loc := f.ptrLoc(v)
+		strT := types.Typ[types.String]
+		f.vc.store(st, &Loc{Kind: loc.Kind, Base: loc.Base, Root: loc.Root, Path: loc.Path + ".BOMFormat", T: strT}, scalar(strT, StrT("CycloneDX")))
+		f.vc.store(st, &Loc{Kind: loc.Kind, Base: loc.Base, Root: loc.Root, Path: loc.Path + ".Version", T: intT}, scalar(intT, One))
 		return v
 	}).mods = func(e *Engine, c *ssa.CallCommon, m *ModSet) {
 		m.allocKind(kindOfPtr(c.Signature().Results().At(0).Type()))
